@@ -331,6 +331,85 @@ def socket_lane(lane, rng, nstreams):
         rp.ConnectedRemotePeer.handle_message_received = orig
 
 
+def many_frames_lane(lane, rng, n):
+    """one large frame followed by more than a thousand minimal ones, through the real read path, with the transport handing
+    over AS MUCH AS THE NODE ASKS FOR in each read (so the read size is the node's own choice, not the harness's): every
+    well-formed message must be delivered, however the bytes happened to be available when the node read"""
+    from skv import simnet
+    from skepticoin.coinstate import CoinState
+    import skepticoin.networking.remote_peer as rp
+    import skepticoin.datatypes as dt
+    import skepticoin.signing as sg
+    ms = lane.ms
+    log = []
+    orig = rp.ConnectedRemotePeer.handle_message_received
+
+    def rec(self, header, message):
+        log.append(header.id)
+        return orig(self, header, message)
+    rp.ConnectedRemotePeer.handle_message_received = rec
+    try:
+        for k in range(n):
+            net = simnet.Net(rng)
+            node = net.add_node("S", ("10.0.0.1", 2412), CoinState.zero(), NullDisk())
+            wire = simnet.Wire(net.clock)
+            nout = rng.choice([900, 1400, 2000])
+            cb = dt.Transaction([dt.Input(dt.OutputReference(b"\x00" * 32, 0), sg.CoinbaseData(9, b"big"))],
+                                [dt.Output(1, sg.SECP256k1PublicKey(bytes([1 + i % 200]) * 64)) for i in range(nout)])
+            blk = dt.Block(dt.BlockHeader(dt.BlockSummary(9, b"\x11" * 32, b"\x22" * 32, 1615757105, b"\xff" * 32, k),
+                                          dt.PowEvidence(b"\x00" * 32, b"\x00" * 32, b"\x00" * 32)), [cb])
+            big = wire.block(blk)
+            nsmall = rng.choice([1100, 1500])
+            frames = [wire.hello(nonce=rng.randrange(1 << 32)), big] + [wire.frame(ms.GetPeersMessage()) for _ in range(nsmall)]
+            stream = b"".join(frames)
+            exp_ids, exp_refuse = expected(stream, ms)
+            head_len = len(frames[0])
+            schedules = {
+                "everything at once": [len(stream)],
+                "most of the large frame, then the rest with all the small ones": [head_len + len(big) - rng.choice([200, 2000]), len(stream)],
+                "half of the large frame, then the rest": [head_len + len(big) // 2, len(stream)],
+                "greeting and the frame header first": [head_len + 8, head_len + len(big) - 100, len(stream)],
+            }
+            for name, cuts in schedules.items():
+                raw = net.raw_connect(node, src=("10.4.5.%d" % (len(log) % 200 + 1), 43100 + k))
+                del log[:]
+                prev = 0
+                for cut in cuts:
+                    raw.push(stream[prev:cut])
+                    prev = cut
+                    guard = 0
+                    while raw.peer.in_flight and not raw.peer.closed and raw.peer in node.lp.selector.map and guard < 5000:
+                        net.do_read(node, raw.peer, 1 << 30)        # the transport has it all: the node gets what it asks for
+                        guard += 1
+                        # the selector reports a socket readable and writable in one event: the answers queued by this
+                        # read leave before the next read (otherwise the SEND side's backlog, not the parser, is driven)
+                        if raw.peer in node.lp.selector.map and any(a[0] == "write" and a[2] is raw.peer for a in net.enabled()):
+                            net.do_write(node, raw.peer)
+                            raw.take_received()
+                    # answers are taken off the wire
+                    wguard = 0
+                    while raw.peer in node.lp.selector.map and any(a[0] == "write" and a[2] is raw.peer for a in net.enabled()) and wguard < 20000:
+                        net.do_write(node, raw.peer)
+                        wguard += 1
+                    raw.take_received()
+                lane.c["many_frames_schedules"] = lane.c.get("many_frames_schedules", 0) + 1
+                lane.c["fragmentations"] += 1
+                lane.distinct += 1
+                w = {"stream": "", "cuts": cuts, "corrupt": "none", "lane": "many-frames", "schedule": name,
+                     "large_frame_bytes": len(big), "small_frames": nsmall}
+                closed = raw.peer.closed or raw.peer not in node.lp.selector.map
+                if log != exp_ids:
+                    lane.v("socket-lane:delivered-sequence-differs", "%d of %d well-formed messages were delivered when the bytes became "
+                           "available as: %s" % (len(log), len(exp_ids), name), w)
+                if closed and not exp_refuse:
+                    lane.v("socket-lane:well-formed-stream-refused", "connection closed on a well-formed stream (%s)" % name, w)
+                if node.escaped:
+                    lane.v("socket-lane:exception-escaped", node.escaped[0][:200], w)
+                    node.escaped.clear()
+    finally:
+        rp.ConnectedRemotePeer.handle_message_received = orig
+
+
 def real_socket_lane():
     """auxiliary: the repository's own two integration tests (real TCP on loopback, real threads) with a per-connection
     receive-order monitor attached"""
@@ -399,6 +478,10 @@ def run_shard(spec):
     env.boot(fake_scrypt=False, horizon_off=False)
     if spec.get("lane") == "real-sockets" or ("replay" in spec and spec["replay"].get("lane") == "real-sockets"):
         return real_socket_lane()
+    if "replay" in spec and spec["replay"].get("lane") == "many-frames":
+        lane = Lane({"seed": 0, "shard": 0})
+        many_frames_lane(lane, random.Random(1), 1)
+        return lane.result()
     lane = Lane(spec)
     g = objgen.Gen()
     if "replay" in spec:
@@ -425,6 +508,8 @@ def run_shard(spec):
     socket_lane(lane, rng, 25 if quick else 600)
     if spec["shard"] % 4 == 0:
         big_frames(lane, g, rng, 1 if quick else 5)
+    if spec["shard"] % 4 == 2:
+        many_frames_lane(lane, rng, 1 if quick else 4)
     return lane.result()
 
 
@@ -439,6 +524,7 @@ def finalize(m, tier):
         "floors": [("fragmentations", c.get("fragmentations", 0), 200000), ("three_way", c.get("three_way", 0), 100000),
                    ("refusals_observed", c.get("refusals_observed", 0), 1000), ("streams", c.get("streams", 0), 200),
                    ("messages_delivered", c.get("messages_delivered", 0), 100000),
-                   ("largest_legitimate_messages", c.get("largest_legitimate_messages", 0), 3)],
+                   ("largest_legitimate_messages", c.get("largest_legitimate_messages", 0), 3),
+                   ("many_frames_schedules", c.get("many_frames_schedules", 0), 12)],
         "extra": {"exhaustive_bound": "all 2- and 3-way cuts of every short stream (<= 330/400 bytes)"},
     }
